@@ -138,6 +138,46 @@ def _inline_hir_call(caller, call, helper, off, tag):
     return blk
 
 
+def _beta_reduce(root, off):
+    """`(|p| body)(arg)` -> `{ let p = arg; body }` (p replaced by arg when arg is a plain place), in place under root"""
+    changed = True
+    rounds = 0
+    while changed and rounds < 4:
+        changed = False
+        rounds += 1
+        for n in list(walk(root)):
+            if n.get("k") == "Call" and isinstance(n.get("f"), dict) and strip_t(n["f"]).get("k") == "Closure":
+                cl = strip_t(n["f"])
+                params = cl.get("params", [])
+                args = n.get("args", [])
+                if len(params) != len(args):
+                    continue
+                idsub, lets = {}, []
+                for p_, a_ in zip(params, args):
+                    if p_.get("k") == "PBind" and not p_.get("sub") and "Mut)" not in (p_.get("mode") or "") and _simple(a_):
+                        idsub[p_["id"]] = a_
+                    else:
+                        lets.append({"k": "Let", "sp": n.get("sp"), "pat": p_, "init": a_})
+                body = _subst(cl["body"], idsub, 0, "", None) if idsub else cl["body"]
+                blk = {"k": "Block", "sp": n.get("sp"), "ty": n.get("ty"), "beta": True}
+                if body.get("k") == "Block":
+                    blk["stmts"] = lets + list(body.get("stmts", []))
+                    if body.get("expr") is not None:
+                        blk["expr"] = body["expr"]
+                else:
+                    blk["stmts"] = lets
+                    blk["expr"] = body
+                if _replace_node(root, n, blk):
+                    changed = True
+                    break
+
+
+def strip_t(e):
+    while isinstance(e, dict) and (e.get("k") == "Ref" or (e.get("k") == "Block" and not e.get("stmts") and e.get("expr") is not None)):
+        e = e["e"] if e.get("k") == "Ref" else e["expr"]
+    return e
+
+
 def _replace_node(root, old, new):
     """replace `old` (by identity) under root, in place"""
     stack = [root]
@@ -227,6 +267,7 @@ def _inline_mir_call(facts, caller, bi, helper, tag):
         blk["stmts"].append({"k": "assign", "sp": t.get("sp"),
                              "lhs": {"l": loff + j + 1, "s": name or "_%d" % (loff + j + 1), "ty": pl.get("ty")},
                              "rv": {"rk": "use", "op": a}})
+        caller.setdefault("inlined_params", []).append(loff + j + 1)
     blk["term"] = {"k": "goto", "sp": t.get("sp"), "target": boff, "inlined": helper["path"]}
     # closures of the helper: one copy per inlining site, owned by the caller's root
     root = caller["parent"] if caller["dk"] == "Closure" else caller["path"]
@@ -241,6 +282,108 @@ def _inline_mir_call(facts, caller, bi, helper, tag):
                     s["rv"]["def"] = s["rv"]["def"] + tag
         facts.mir.append(cc)
     return True
+
+
+def _trace_def(body, local, want):
+    """follow single `use` definitions of `local` back to an aggregate statement accepted by `want`"""
+    seen = set()
+    while local is not None and local not in seen:
+        seen.add(local)
+        defs = [s_ for blk in body["blocks"] for s_ in blk["stmts"] if s_.get("k") == "assign" and s_["lhs"]["l"] == local and not s_["lhs"].get("p")]
+        if len(defs) != 1:
+            return None
+        rv = defs[0]["rv"]
+        if want(rv):
+            return rv
+        if rv.get("rk") == "use":
+            op = rv.get("op") or {}
+            pl = op.get("move") or op.get("copy")
+            local = pl["l"] if pl and not pl.get("p") else None
+        else:
+            return None
+    return None
+
+
+def _inline_closure_calls(facts, caller):
+    """inside code that came from an inlined helper: `f(args)` where f is a closure built in this very body becomes the closure's body"""
+    done = 0
+    for _ in range(4):
+        hit = None
+        for blk in caller["blocks"]:
+            t = blk.get("term") or {}
+            if t.get("k") != "call" or not blk.get("inlined_from") or t.get("target") is None:
+                continue
+            cal = t.get("callee") or ""
+            if not cal.endswith(("FnOnce::call_once", "FnMut::call_mut", "Fn::call")) or len(t["args"]) != 2:
+                continue
+            f_pl = t["args"][0].get("move") or t["args"][0].get("copy")
+            a_pl = t["args"][1].get("move") or t["args"][1].get("copy")
+            if not f_pl or not a_pl or f_pl.get("p") or a_pl.get("p"):
+                continue
+            cagg = _trace_def(caller, f_pl["l"], lambda rv: rv.get("rk") == "agg" and rv.get("agg") == "closure")
+            tagg = _trace_def(caller, a_pl["l"], lambda rv: rv.get("rk") == "agg" and rv.get("agg") in ("tuple", "tup") or (rv.get("rk") == "agg" and not rv.get("adt") and rv.get("agg") not in ("closure", "adt", "array")))
+            if cagg is None or tagg is None:
+                continue
+            cb = facts.mir_by_path.get((caller["crate"], cagg["def"]))
+            if cb is None:
+                continue
+            hit = (blk, t, cagg, tagg, cb)
+            break
+        if hit is None:
+            break
+        blk, t, cagg, tagg, cb = hit
+        loff = len(caller["locals"])
+        boff = len(caller["blocks"])
+        for l in cb["locals"]:
+            nl = dict(l)
+            nl["i"] = l["i"] + loff
+            caller["locals"].append(nl)
+        new_blocks = _remap_mir(cb["blocks"], loff, boff, "", None)
+        names = [u["place"] for u in cb.get("upvars", [])]
+
+        def fix_upvars(x):
+            if isinstance(x, dict):
+                if "upvar" in x and "l" in x:
+                    name = x["upvar"]
+                    if name in names and names.index(name) < len(cagg["ops"]):
+                        cap = cagg["ops"][names.index(name)]
+                        cpl = cap.get("move") or cap.get("copy")
+                        if cpl is not None:
+                            pr = x.get("p") or []
+                            j = next((k for k, e in enumerate(pr) if isinstance(e, str) and e.startswith(".<upvar")), None)
+                            rest = pr[j + 1:] if j is not None else pr
+                            x["l"] = cpl["l"]
+                            x["p"] = list(cpl.get("p") or []) + list(rest)
+                            x["s"] = cpl["s"] + "".join(e if isinstance(e, str) else "[]" for e in rest)
+                            del x["upvar"]
+                    return
+                for v in x.values():
+                    fix_upvars(v)
+            elif isinstance(x, list):
+                for v in x:
+                    fix_upvars(v)
+        fix_upvars(new_blocks)
+        for nb in new_blocks:
+            nb["inlined_from"] = cb["path"]
+            tt = nb.get("term") or {}
+            if tt.get("k") == "return":
+                nb["stmts"].append({"k": "assign", "lhs": t["dest"], "sp": t.get("sp"),
+                                    "rv": {"rk": "use", "op": {"move": {"l": loff, "s": "_%d" % loff, "ty": cb["locals"][0].get("ty")}}}})
+                nb["term"] = {"k": "goto", "sp": tt.get("sp"), "target": t["target"]}
+            elif tt.get("k") == "resume" and t.get("unwind") is not None:
+                nb["term"] = {"k": "goto", "sp": tt.get("sp"), "target": t["unwind"]}
+            caller["blocks"].append(nb)
+        for j, a in enumerate(tagg.get("ops", [])):
+            if j + 2 < len(cb["locals"]):
+                pl = cb["locals"][j + 2]
+                blk["stmts"].append({"k": "assign", "sp": t.get("sp"),
+                                     "lhs": {"l": loff + j + 2, "s": pl.get("name") or "_%d" % (loff + j + 2), "ty": pl.get("ty")},
+                                     "rv": {"rk": "use", "op": a}})
+                caller.setdefault("inlined_params", []).append(loff + j + 2)
+        blk["term"] = {"k": "goto", "sp": t.get("sp"), "target": boff, "inlined": cb["path"]}
+        cb["analysed_inlined"] = True
+        done += 1
+    return done
 
 
 def _mir_calls_to(body, path):
@@ -305,6 +448,7 @@ def inline_new_helpers(facts, reference_functions):
                         site[0] += 1
                         blk = _inline_hir_call(b, c, hb, _max_id(b) + 1000, _tag(c.get("sp")))
                         if blk is not None:
+                            _beta_reduce(blk, 0)
                             _replace_node(b["body"], c, blk)
                 callers.append(b["path"])
             m_site = 0
@@ -314,6 +458,8 @@ def inline_new_helpers(facts, reference_functions):
                 for bi in _mir_calls_to(b, hpath):
                     m_site += 1
                     _inline_mir_call(facts, b, bi, hm, _tag(b["blocks"][bi]["term"].get("sp")))
+                    facts._index()
+                    _inline_closure_calls(facts, b)
                     if b["path"] not in callers:
                         callers.append(b["path"])
             if callers:
